@@ -98,7 +98,7 @@ class Env:
         shutil.rmtree(self.w, ignore_errors=True)
 
 
-def one_run(sx, h_one, w, cfgtext, opts, uid=0, prep=None, calltimeout=2500, totaltimeout=6000, std_state=None, msglen=None, ncalls=1, stdin_pty=False, fsize=None, ctty=None, pending=None):
+def one_run(sx, h_one, w, cfgtext, opts, uid=0, prep=None, calltimeout=2500, totaltimeout=6000, std_state=None, msglen=None, ncalls=1, stdin_pty=False, fsize=None, ctty=None, pending=None, utmp=None):
     env = Env(w)
     try:
         if prep:
@@ -110,7 +110,7 @@ def one_run(sx, h_one, w, cfgtext, opts, uid=0, prep=None, calltimeout=2500, tot
             open(res, 'w').close()
             os.chmod(res, 0o666)
             os.chmod(w, 0o777)
-        rep = X.run(sx, w, prefix=([HCTTY[0], ctty, '--'] if ctty else []), prog_argv=[h_one, ini, res, str(uid), str(ncalls), os.path.join(w, 'devlog')] + ([str(msglen)] if msglen else []), env=dict(H.san_env(w), VERIF_STD_STATE=std_state or '', **({'VERIF_STDIN_PTY': '1'} if stdin_pty else {}), **({'VERIF_RLIMIT_FSIZE': str(fsize)} if fsize is not None else {}), **({'VERIF_PENDING': pending} if pending else {})), opts=list(opts) + ['--skipalloc', '--calltimeout', str(calltimeout), '--totaltimeout', str(totaltimeout)], timeout=totaltimeout / 1000 + 30)
+        rep = X.run(sx, w, prefix=([HCTTY[0], ctty, '--'] if ctty else []), prog_argv=[h_one, ini, res, str(uid), str(ncalls), os.path.join(w, 'devlog')] + ([str(msglen)] if msglen else []), env=dict(H.san_env(w), VERIF_STD_STATE=std_state or '', **({'VERIF_STDIN_PTY': '1'} if stdin_pty else {}), **({'VERIF_RLIMIT_FSIZE': str(fsize)} if fsize is not None else {}), **({'VERIF_PENDING': pending} if pending else {}), **({'VERIF_UTMP_PATH': os.path.join(w, utmp), 'VERIF_STDIN_PTY': '1'} if utmp else {})), opts=list(opts) + ['--skipalloc', '--calltimeout', str(calltimeout), '--totaltimeout', str(totaltimeout)], timeout=totaltimeout / 1000 + 30)
         try:
             rep['result'] = json.load(open(res))
         except Exception:
@@ -406,8 +406,25 @@ def run(ck):
     for cname in ('file/default', 'stdout/default', 'stderr/default', 'devtty/default', 'devnull/default'):
         states.append(('%s:callers_blocked_signals_pending' % cname, cfg[cname], 0, None, None, None, None, None, '13,25,22,10'))
     states.append(('file:/dev/full:callers_blocked_signals_pending', fcfg.replace('@W@/log', '/dev/full'), 0, None, None, None, None, None, '13,25,22,10'))
+    # the utmp file the %{ipaddr} lookup reads (stdin on a terminal): a FIFO nobody writes to; a file another process holds a lease on
+    def utmp_fifo(env):
+        os.mkfifo(os.path.join(env.w, 'utmp'))
+
+    def utmp_leased(env):
+        import subprocess, sys
+        up = os.path.join(env.w, 'utmp')
+        open(up, 'wb').write(b'\0' * 384 * 3)
+        code = ('import fcntl, os, signal, sys, time\nsignal.signal(signal.SIGIO, signal.SIG_IGN)\nfd = os.open(sys.argv[1], os.O_RDWR)\n'
+                'fcntl.fcntl(fd, fcntl.F_SETLEASE, fcntl.F_WRLCK)\nsys.stdout.write("ok\\n"); sys.stdout.flush()\ntime.sleep(120)\n')
+        p = subprocess.Popen([sys.executable, '-c', code, up], stdout=subprocess.PIPE, stderr=subprocess.PIPE)
+        env.socks.append(Holder(p))
+        if p.stdout.readline().strip() != b'ok':
+            raise RuntimeError('lease holder did not start: %r' % p.stderr.read()[-300:])
     states = [s + (None,) * (9 - len(s)) for s in states]
-    st_res = pmap(lambda s: one_run(sx, v['h_one'], wdir(), s[1], [], uid=s[2], prep=s[3], std_state=s[4], msglen=s[5], fsize=s[6], ctty=s[7], pending=s[8]), states)
+    states.append(('file/allds:utmp_is_a_fifo_nobody_writes_to', cfg['file/allds'], 0, utmp_fifo, None, None, None, None, None, 'utmp'))
+    states.append(('file/allds:utmp_leased_by_another_process', cfg['file/allds'], 0, utmp_leased, None, None, None, None, None, 'utmp'))
+    states = [s + (None,) * (10 - len(s)) for s in states]
+    st_res = pmap(lambda s: one_run(sx, v['h_one'], wdir(), s[1], [], uid=s[2], prep=s[3], std_state=s[4], msglen=s[5], fsize=s[6], ctty=s[7], pending=s[8], utmp=s[9]), states)
     for s, rep in zip(states, st_res):
         evals += 1
         b = verdict(rep)
@@ -415,7 +432,7 @@ def run(ck):
             b = ['callers_pending_signals_changed(%s)' % (rep.get('result') or {}).get('still_pending')]
         outcomes.add(('state', s[0], tuple(b)))
         if b and ('hang_or_spin' in b or any(x.startswith('blocked') for x in b)):
-            rep = one_run(sx, v['h_one'], wdir(), s[1], [], uid=s[2], prep=s[3], calltimeout=12000, totaltimeout=30000, std_state=s[4], msglen=s[5], fsize=s[6], ctty=s[7], pending=s[8])
+            rep = one_run(sx, v['h_one'], wdir(), s[1], [], uid=s[2], prep=s[3], calltimeout=12000, totaltimeout=30000, std_state=s[4], msglen=s[5], fsize=s[6], ctty=s[7], pending=s[8], utmp=s[9])
             b = verdict(rep)
         if b:
             ck.violation('C03:%s:sink_state=%s' % ('+'.join(b), s[0]), {'state': s[0], 'config': s[1], 'uid': s[2], 'report': {k: rep.get(k) for k in ('signals', 'exit_code', 'term_sig', 'blocked_call', 'total_timeout', 'result')},
